@@ -89,6 +89,10 @@ use crate::Formatter;
 use crate::Result;
 use crate::{codepoint_len, RegexOptions};
 
+#[cfg(feature = "verif-hooks")]
+#[path = "verif.rs"]
+pub mod verif;
+
 /// Enable tracing of VM execution. Only for debugging/investigating.
 const OPTION_TRACE: u32 = 1 << 0;
 /// When iterating over all matches within a text (e.g. with `find_iter`), empty matches need to be
@@ -279,9 +283,13 @@ impl State {
             let nsave = self.nsave;
             self.stack.push(Branch { pc, ix, nsave });
             self.nsave = 0;
+            #[cfg(feature = "verif-hooks")]
+            verif::state_op(verif::StateOp::Push { pc, ix, ok: true }, self);
             self.trace_stack("push");
             Ok(())
         } else {
+            #[cfg(feature = "verif-hooks")]
+            verif::state_op(verif::StateOp::Push { pc, ix, ok: false }, self);
             Err(Error::RuntimeError(RuntimeError::StackOverflow))
         }
     }
@@ -294,6 +302,8 @@ impl State {
         }
         let Branch { pc, ix, nsave } = self.stack.pop().unwrap();
         self.nsave = nsave;
+        #[cfg(feature = "verif-hooks")]
+        verif::state_op(verif::StateOp::Pop { pc, ix }, self);
         self.trace_stack("pop");
         (pc, ix)
     }
@@ -304,6 +314,8 @@ impl State {
             if self.oldsave[self.oldsave.len() - i - 1].slot == slot {
                 // already saved, just update
                 self.saves[slot] = val;
+                #[cfg(feature = "verif-hooks")]
+                verif::state_op(verif::StateOp::Save { slot, val }, self);
                 return;
             }
         }
@@ -313,6 +325,8 @@ impl State {
         });
         self.nsave += 1;
         self.saves[slot] = val;
+        #[cfg(feature = "verif-hooks")]
+        verif::state_op(verif::StateOp::Save { slot, val }, self);
 
         #[cfg(feature = "std")]
         if self.options & OPTION_TRACE != 0 {
@@ -338,6 +352,8 @@ impl State {
             self.save(sp, val);
         }
         self.save(explicit_sp, sp + 1);
+        #[cfg(feature = "verif-hooks")]
+        verif::state_op(verif::StateOp::StackPush { val }, self);
     }
 
     // pop a value from the explicit stack
@@ -346,6 +362,8 @@ impl State {
         let sp = self.get(explicit_sp) - 1;
         let result = self.get(sp);
         self.save(explicit_sp, sp);
+        #[cfg(feature = "verif-hooks")]
+        verif::state_op(verif::StateOp::StackPop { val: result }, self);
         result
     }
 
@@ -364,6 +382,8 @@ impl State {
     fn backtrack_cut(&mut self, count: usize) {
         if self.stack.len() == count {
             // no backtrack branches to discard, all good
+            #[cfg(feature = "verif-hooks")]
+            verif::state_op(verif::StateOp::Cut { count }, self);
             return;
         }
         // start and end indexes of old saves for the branch we're cutting to
@@ -395,6 +415,8 @@ impl State {
         self.stack.truncate(count);
         self.oldsave.truncate(oldsave_ix);
         self.nsave = oldsave_ix - oldsave_start;
+        #[cfg(feature = "verif-hooks")]
+        verif::state_op(verif::StateOp::Cut { count }, self);
     }
 
     #[inline]
@@ -438,7 +460,37 @@ pub(crate) fn run(
     option_flags: u32,
     options: &RegexOptions,
 ) -> Result<Option<Vec<usize>>> {
+    #[cfg(feature = "verif-hooks")]
+    let verif_override = verif::begin_run();
+    #[cfg(feature = "verif-hooks")]
+    let verif_options;
+    #[cfg(feature = "verif-hooks")]
+    let options = match verif_override.backtrack_limit {
+        Some(limit) => {
+            verif_options = RegexOptions {
+                backtrack_limit: limit,
+                ..options.clone()
+            };
+            &verif_options
+        }
+        None => options,
+    };
     let mut state = State::new(prog.n_saves, MAX_STACK, option_flags);
+    #[cfg(feature = "verif-hooks")]
+    if let Some(max_stack) = verif_override.max_stack {
+        state.max_stack = max_stack;
+    }
+    #[cfg(feature = "verif-hooks")]
+    verif::run_begin(
+        prog,
+        s,
+        pos,
+        option_flags,
+        options.backtrack_limit,
+        state.max_stack,
+    );
+    #[cfg(feature = "verif-hooks")]
+    let mut verif_guard = verif::RunGuard::new();
     let mut inner_slots: Vec<Option<NonMaxUsize>> = Vec::new();
     let look_matcher = LookMatcher::new();
     #[cfg(feature = "std")]
@@ -455,6 +507,8 @@ pub(crate) fn run(
             if option_flags & OPTION_TRACE != 0 {
                 println!("{}\t{} {:?}", ix, pc, prog.body[pc]);
             }
+            #[cfg(feature = "verif-hooks")]
+            verif::at_insn(pc, ix, &prog.body[pc], &state);
             match prog.body[pc] {
                 Insn::End => {
                     // save of end position into slot 1 is now done
@@ -472,6 +526,8 @@ pub(crate) fn run(
                             state.save(0, slot1);
                         }
                     }
+                    #[cfg(feature = "verif-hooks")]
+                    verif_guard.matched(&state.saves);
                     return Ok(Some(state.saves));
                 }
                 Insn::Any => {
@@ -674,6 +730,8 @@ pub(crate) fn run(
                     start_group,
                     end_group,
                 } => {
+                    #[cfg(feature = "verif-hooks")]
+                    verif::at_delegate();
                     let input = Input::new(s).span(ix..s.len()).anchored(Anchored::Yes);
                     if start_group == end_group {
                         // No groups, so we can use faster methods
@@ -715,11 +773,17 @@ pub(crate) fn run(
         }
         // "break 'fail" goes here
         if state.stack.is_empty() {
+            #[cfg(feature = "verif-hooks")]
+            verif_guard.finish(verif::EndReason::NoMatch);
             return Ok(None);
         }
 
+        #[cfg(feature = "verif-hooks")]
+        verif::at_backtrack();
         backtrack_count += 1;
         if backtrack_count > options.backtrack_limit {
+            #[cfg(feature = "verif-hooks")]
+            verif_guard.finish(verif::EndReason::BacktrackLimit);
             return Err(Error::RuntimeError(RuntimeError::BacktrackLimitExceeded));
         }
 
